@@ -130,3 +130,5 @@ Lemma upd_nth_same {A} (l : list A) i x d : (i < length l)%nat -> nth i (upd l i
 Proof. revert i; induction l as [|y r IH]; intros [|j] H; simpl in *; try lia; auto. apply IH. lia. Qed.
 Lemma upd_nth_other {A} (l : list A) i j x d : i <> j -> nth j (upd l i x) d = nth j l d.
 Proof. revert i j; induction l as [|y r IH]; intros [|i] [|j] H; simpl; auto; try congruence. Qed.
+Lemma upd_upd {A} (l : list A) i x y : upd (upd l i x) i y = upd l i y.
+Proof. revert i; induction l as [|a r IH]; intros [|j]; simpl; auto. rewrite IH. reflexivity. Qed.
